@@ -114,6 +114,7 @@ REFS = {
     "recorddiff1": (lambda S: _tab(RS.ref_complement(S[0], _cutb(S))), "multiset"),
     "hashcomplement": (lambda S: _tab(RS.ref_complement(S[0], S[1], ordered=False)), "seq"),
     "hashintersection": (lambda S: _tab(RS.ref_intersection(S[0], S[1], ordered=False)), "seq"),
+    "hashcomplement_strict": (lambda S: _tab(RS.ref_complement(S[0], S[1], strict=True, ordered=False)), "seq"),
 }
 
 
